@@ -12,6 +12,13 @@ def run(tier):
     progs += en.curated(names=["deep3", "orthoroot"], payload="int")
     args = ["--tier", tier, "--dev", "2" if thorough else "1", "--batch", "2", "--classes", str(en.cls("REQ", "GUARD")),
             "--dev-immediate", "1", "--imm-reduced", "0" if thorough else "1", "--deadline", str(1500 if thorough else 150)]
+    if not thorough:
+        # the two smallest programs (flat; orthogonal root) once more with two deviations (e.g. a guard-issued follow-up request that is vetoed in its round)
+        d2 = en.curated(names=["flat3"]) + [en.Prog("tinyortho", "O(C(l,l),l)")]
+        for p in d2:
+            p.args = ["--dev", "2"]
+            p.label += "/dev2"
+        progs += d2
     res = en.run_all(chk, "C09", progs, args, timeout=(2400 if thorough else 400))
     en.aggregate(chk, res, "C09")
     chk.coverage["explanation"] = (
